@@ -254,6 +254,29 @@ def rule_flow(ck):
                 ck.violation(f"parser::{pname}", f"the literal {text.encode('unicode_escape').decode()} is parsed into text {None if got is None else got.encode('unicode_escape').decode()!r} "
                                                  f"(raised: {raised}), not into the characters written ({kind}): a character outside the BK table is rewritten into one inside it and is "
                                                  "assembled silently instead of being refused", construct=f"{pname} rewrites characters")
+    # parse(filename, text): the text the literal parsers read is the text of the file - control and separator characters included
+    probe = 'x\x0by\x0cz\x1c\x1d\x1e\x85\u2028\u2029\r\nq\rw\n'
+    seen_text = []
+
+    def ctx_init(I_, fn_, a, k):
+        seen_text.append(a[2] if len(a) > 2 else k.get("code"))
+        return NotImplemented
+    I.summaries = dict(I.summaries)
+    I.summaries["context::Context.__init__"] = ctx_init
+    I.summaries["parser::code"] = lambda I_, fn_, a, k: sym.var("BODY", "obj")
+    try:
+        pp = I.explore(lambda: I.call(I.module_get("parser", "parse"), ["a.mac", probe], {}))
+    finally:
+        I.summaries.pop("context::Context.__init__", None)
+        I.summaries.pop("parser::code", None)
+    ck.instance(("parse", "text pass-through"), {"text handed to the parser's context": None if not seen_text or not isinstance(seen_text[-1], str) else seen_text[-1].encode("unicode_escape").decode()}, fn="parser::parse")
+    if len(pp) != 1 or pp[0].kind != "return":
+        ck.incomplete("parser::parse", "parse() of a text with control and separator characters", pp)
+    elif not seen_text or seen_text[-1] != probe:
+        got_ = seen_text[-1] if seen_text else None
+        ck.violation("parser::parse", f"parse() hands the parser {None if not isinstance(got_, str) else got_.encode('unicode_escape').decode()!r} for the source {probe.encode('unicode_escape').decode()!r}: "
+                                      "characters of the file are rewritten before any literal is read (a vertical tab or form feed inside a string becomes a line feed; a character outside the table is assembled silently)",
+                     construct="parse rewrites the source text")
     # the token hands the same text on
     for cls in ("QuotedString",):
         fn = repo.func(f"types::{cls}.resolve")
